@@ -43,7 +43,9 @@ TEXT = {
                 "bookkeeping holds for the set reported with 'conditions unmet' (C05_unmet_credited); threshold < 1 or no principals is "
                 "never satisfied (C05_invalid). Completeness (C05_complete, C05_complete_env): when the principals share no keys, the rule is "
                 "satisfied whenever at least threshold of them signed - the Git object, the envelope, or both; a kernel-evaluated example "
-                "with a shared key shows the hypothesis cannot be dropped. The model is compared with the real Verify (verifiers from "
+                "with a shared key shows the hypothesis cannot be dropped; and a signature on the Git object never hurts: a rule satisfied by "
+                "the envelope alone is satisfied whatever signature the object carries (C05_git_signature_monotone, the one-rule step from "
+                "'mergeable, no further signature needed' to 'the recorded merge verifies whoever records it'). The model is compared with the real Verify (verifiers from "
                 "FindVerifiersForPath, real ed25519 signatures) under every map iteration order; both directions are also evaluated on "
                 "the implementation's own output.",
         "note": TB + "Completeness assumes an envelope, when present, carries at least one signature (F28 otherwise). "
